@@ -227,6 +227,19 @@ class Sib:
                         m = m_method(x, "conj", "conjugate")
                         if m is not None and dep(m[0]):
                             hit = ".conj()"
+                        # a cast to a real dtype is a real part: x.astype(float32) / jnp.float64(x) / jnp.asarray(x, dtype=float)
+                        m = m_method(x, "astype")
+                        cast_to = None
+                        if m is not None and dep(m[0]) and m[1]:
+                            cast_to = m[1][0]
+                        elif fn in ("asarray", "array") and "dtype" in call_parts(x)[2] and any(dep(y) for y in call_parts(x)[1]):
+                            cast_to = call_parts(x)[2]["dtype"]
+                        elif fn in ("float32", "float64", "float16", "float_") and any(dep(y) for y in call_parts(x)[1]):
+                            cast_to = x.args[0]
+                        if cast_to is not None:
+                            dn_ = show(cast_to).split(".")[-1].strip("'\"")
+                            if dn_.startswith("float") or dn_.startswith("int") or dn_ in ("float", "int", "double", "single"):
+                                hit = f"cast to the real dtype {dn_}"
                     elif x.op == "attr" and x.args[1] in ("real", "imag", "H") and dep(x.args[0]):
                         hit = "." + x.args[1]
                     if hit:
